@@ -64,10 +64,14 @@ def gen_cases(rng, n, with_boundary=True, maxlen=9000):
         texts = [(rng.choice([0, 1, 2, 3]), t, "boundary") for t in tparse.boundary_texts() + EXTRA if len(t) < maxlen] + texts
     cases = []
     for (w, t, c) in texts:
-        if rng.random() < 0.6:
+        if t.count("<loop") > 5:
+            v = {"a": "x"}          # nested loops over the root: keep the work linear
+        elif rng.random() < 0.6:
             v = FIXED
         else:
-            v, _s = ta.gen_root(rng)
+            v, sortable = ta.gen_root(rng)
+            if "sort" in t and not sortable:
+                v = FIXED           # TmplModel.sort_set orders naturals / strings / object keys only (C02 domain)
         cases.append((w, t, c, v))
     return cases
 
